@@ -43,9 +43,9 @@ PROPS["C19"] = {
     "trusted_base": ["frequency maps are modelled as duplicate-free association lists (hypothesis NodupKeys in the theorems)"],
 }
 PROPS["C20"] = {
-    "unclaimed": True,
     "suites": [{"name": "pathguard"}],
-    "required_theorems": [],
+    "required_theorems": ["C20_guard_refuses_iff", "C20_guard_passes_outside", "C20_inside_iff_string",
+                          "C20_resolve_eq_real", "C20_resolve_no_symlink", "C20_old_guard_lookalike"],
     "level_text": "Theorems about the guard model over an abstract file system with symlinks (decision = component-wise containment of the resolved location; prefix-retrying EvalSymlinks agrees with one physical walk; string vs component prefix). Tie: every path spelling of the quantifier (404 cases: 6 protected dirs x spellings x ro/rw, symlink trees under a temp dir) is run through the real NewPebbleScanner in guard-only mode (hook H2, nothing is opened) and compared with an independent Lstat/Readlink walk and with the Lean guard fed the same file-system description.",
     "level_note": "Trusted: Lean kernel; the kernel's path resolution as re-implemented by the harness oracle; filepath.EvalSymlinks modelled as `evalSym`. Dangling symlinks are outside the agreement theorem.",
     "trusted_base": ["filepath.EvalSymlinks / os.Getwd behaviour as modelled by evalSym/absComps", "hook H2 (guard-only probe) placed directly after the sanitisation block"],
